@@ -89,7 +89,10 @@ def handle : List String → Option String
     | "write_input" => some (showRes (runOne Gen.ApiFlow.writeInput b (frames.headD {}) 0 fs0))
     | "dump_many" => some (showRes (runMany Gen.ApiFlow.dumpMany b frames 0 fs0))
     | "load_one" => some (showRes (runLoadOne Gen.ApiFlow.loadOne b 0 fs0))
-    | "load_many" => some (showRes (runLoadMany Gen.ApiFlow.loadMany b 0 fs0))
+    | "load_many" =>
+      -- a generator that ends by `return` and one that runs to its end are the same for its consumer
+      let r := runLoadMany Gen.ApiFlow.loadMany b 0 fs0
+      some (showRes ((if r.1 == .ret then .normal else r.1), r.2))
     | _ => none
   | _ => none
 
